@@ -460,6 +460,64 @@ impl NameMap {
         &name.name
     }
 
+    /// Check if a name from the root scope finds something else when it is written in the given place
+    ///
+    /// The names we write start at the root scope but are looked up from where they are written
+    /// The namespaces around that place are searched first - and the members of a struct inside its methods
+    pub fn is_root_name_hidden(
+        &self,
+        module: &Module,
+        name: &str,
+        namespace: Option<NamespaceId>,
+        owner: Option<StructId>,
+    ) -> bool {
+        if let Some(id) = owner {
+            let member_count = module.struct_registry[id.0 as usize].members.len();
+            for index in 0..member_count {
+                if self.get_struct_member_name(module, id, index as u32) == name {
+                    return true;
+                }
+            }
+        }
+
+        if namespace.is_none() {
+            return false;
+        }
+
+        let mut enclosing = Vec::new();
+        let mut current = namespace;
+        while let Some(id) = current {
+            enclosing.push(id);
+            current = module.namespace_registry.get_namespace_parent(id);
+        }
+
+        for (symbol, name_string) in &self.names {
+            if let Some(symbol_namespace) = name_string.namespace
+                && !matches!(symbol, NameSymbol::LocalVariable(_))
+                && name_string.name == name
+                && enclosing.contains(&symbol_namespace)
+            {
+                return true;
+            }
+        }
+
+        // Enum values are also visible in the namespace that contains the enum
+        for i in 0..module.enum_registry.get_enum_count() {
+            let id = EnumId(i);
+            if let Some(enum_namespace) = module.enum_registry.get_enum_definition(id).namespace
+                && enclosing.contains(&enum_namespace)
+            {
+                for value_id in module.enum_registry.get_values(id) {
+                    if self.get_enum_value_name(module, *value_id) == name {
+                        return true;
+                    }
+                }
+            }
+        }
+
+        false
+    }
+
     /// Get the qualified name for a given symbol
     pub fn get_name_qualified(&self, symbol: NameSymbol) -> ScopedName {
         let name = match self.names.get(&symbol) {
